@@ -21,4 +21,11 @@ theorem holds_graceful_not_forced (proto : Proto) (lost : Bool) :
     (kill Facts.kill proto .exitsFast lost true true).forced = false :=
   (graceful_not_forced _ facts_good proto lost).1
 
+theorem cleanup_facts_good : Facts.cleanupClients.Good := by decide
+
+/-- CleanupClients over ANY list of managed clients: all plugins gone and reported as exited when it returns -/
+theorem holds_cleanup_clients_all_dead (ms : List Managed) :
+    ∀ o ∈ cleanupAll Facts.kill Facts.cleanupClients ms, o.returns = true ∧ o.procDead = true ∧ o.exitedFlag = true :=
+  (cleanup_clients_all_dead _ facts_good _ cleanup_facts_good ms).1
+
 end GoPlugin.Instance.C04
